@@ -47,6 +47,14 @@ def stage(chk, maxops):
     st = json.loads(json.dumps(cases[len(cases) // 2])); st["hist"][-1]["ans"]["nextnum"] += 1
     q = vlib.harness("layers_ops", [st], W, tag="layers_selftest")[0]
     chk.require(norm(st["hist"][-1]["ans"]) != norm(q["steps"][-1]["ans"]), "registry comparison did not notice an altered expectation")
+    # unbounded argument (Apalache): KeysValid and LatestWins are inductive for ANY layer numbers
+    apa = os.path.join(SPECS, "apalache", "LayersInd.tla")
+    base, t1 = vlib.apalache(apa, ["--init=BaseInit", "--inv=IndInv", "--length=0"])
+    step, t2 = vlib.apalache(apa, ["--init=IndInit", "--inv=IndInv", "--length=1"])
+    chk.cov["apalache_layer_keys_inductive"] = {"base_case": base, "inductive_step": step, "seconds": t1 + t2,
+                                                "scope": "any integer layer numbers, four names, registries of up to 4 layers before the step"}
+    vlib.log(f"[apalache] LayersInd: base {base}, step {step} ({t1 + t2:.1f}s)")
+    chk.require(base != "Error" and step != "Error", "Apalache: the key invariants of the layer registry are not inductive (specification defect)")
     return len(cases)
 
 
